@@ -188,52 +188,124 @@ func runC01Validate(c *Ctx) {
 		return
 	}
 	fn := FuncName(f)
-	var vcalls []ssa.CallInstruction
-	eachCall(f, func(call ssa.CallInstruction) {
-		if isValidateCall(call) {
-			vcalls = append(vcalls, call)
+	// by interpretation (helpers introduced since the baseline are unfolded): with the overlay, its
+	// extraction and Validate opaque, setOp returns the extracted geometry and a nil error exactly
+	// when the extraction succeeded and Validate returned nil; otherwise a non-nil error
+	{
+		firstArg := func(t string) string {
+			depth := 0
+			for i, r := range t {
+				switch r {
+				case '(', '[', '{':
+					depth++
+				case ')', ']', '}':
+					depth--
+				case ',':
+					if depth == 0 {
+						return t[:i]
+					}
+				}
+			}
+			return t
 		}
-	})
-	if len(vcalls) == 0 {
-		c.Bad(f.Pos(), fn, "validate overlay result", "setOp no longer validates the geometry extracted from the overlay")
+		problem, undec := "", ""
+		models := 0
+		for _, exOK := range []bool{true, false} {
+			for _, valOK := range []bool{true, false} {
+				models++
+				var nilness func(t string) (bool, bool)
+				nilness = func(t string) (bool, bool) {
+					t = strings.Trim(t, "\"")
+					switch {
+					case t == "nil":
+						return true, true
+					case isFreshErrorTerm(t):
+						return false, true
+					case strings.HasPrefix(t, "geom.wrap("):
+						return nilness(firstArg(t[len("geom.wrap("):]))
+					case strings.Contains(t, ").Validate("):
+						return valOK, true
+					case strings.Contains(t, "extractGeometry("):
+						return exOK, true
+					}
+					return false, false
+				}
+				m := &Model{Num: map[string]float64{}, Bool: map[string]bool{}, Missing: map[string]bool{}}
+				it := &k4interp{p: c.P, m: m, mem: map[string]k4val{}}
+				validated := ""
+				it.onOpaque = func(name string, args []k4val) {
+					if strings.HasSuffix(name, ").Validate") && len(args) > 0 {
+						validated = args[0].String()
+					}
+				}
+				it.answer = func(key string, isBool bool) (k4val, bool) {
+					if !isBool || !strings.HasPrefix(key, "(") || !strings.HasSuffix(key, "==nil)") {
+						return k4val{}, false
+					}
+					if isNil, ok := nilness(key[1 : len(key)-len("==nil)")]); ok {
+						return k4val{kind: 1, b: isNil}, true
+					}
+					return k4val{}, false
+				}
+				res, err := it.call(f, []k4val{{kind: 3, s: "$0"}, {kind: 3, s: "$1"}, {kind: 3, s: "$2"}}, nil)
+				if err != nil || len(res) != 2 {
+					undec = fmt.Sprintf("%v %s", err, missingList(m))
+					break
+				}
+				errNil, ok := nilness(res[1].String())
+				if !ok {
+					undec = "cannot tell whether the returned error " + trunc(res[1].String()) + " is nil"
+					break
+				}
+				desc := fmt.Sprintf("extraction ok=%v, Validate ok=%v", exOK, valOK)
+				switch {
+				case exOK && valOK:
+					if !errNil {
+						problem = desc + ": setOp returns an error"
+					} else if !strings.Contains(res[0].String(), "extractGeometry(") {
+						problem = desc + ": the geometry returned (" + trunc(res[0].String()) + ") is not the one extracted from the overlay"
+					} else if !strings.Contains(validated, "extractGeometry(") {
+						problem = desc + ": Validate() is not called on the geometry extracted from the overlay"
+					}
+				case errNil:
+					if exOK {
+						problem = desc + ": the success return is reachable without Validate() having returned nil"
+					} else {
+						problem = desc + ": setOp returns no error although the extraction failed"
+					}
+				}
+			}
+		}
+		switch {
+		case undec != "":
+			c.Undecided(f.Pos(), fn, "validate overlay result", "cannot interpret: "+undec)
+		case problem != "":
+			c.Bad(f.Pos(), fn, "validate overlay result", problem)
+		default:
+			c.OK(f.Pos(), fn, "validate overlay result", fmt.Sprintf("extracted geometry is validated on every success path and is the value returned (%d models)", models))
+		}
 	}
-	for _, vc := range vcalls {
-		x := vc.Common().Args[0]
-		verr := vc.Value()
-		reached := reachableReturns(f, func(cond ssa.Value, takenTrue bool) bool {
-			bo, ok := cond.(*ssa.BinOp)
-			if !ok {
-				return true
+	// the reviewed callers, and the helpers introduced since the baseline that only they call
+	ownersOf := func(g *ssa.Function) []string {
+		var owners []string
+		seen := map[*ssa.Function]bool{}
+		var up func(g *ssa.Function, d int)
+		up = func(g *ssa.Function, d int) {
+			g = rootFunc(g)
+			if seen[g] || d > 4 {
+				return
 			}
-			if (bo.X == verr && isNilConst(bo.Y)) || (bo.Y == verr && isNilConst(bo.X)) {
-				if (bo.Op.String() == "!=" && !takenTrue) || (bo.Op.String() == "==" && takenTrue) {
-					return false
-				}
+			seen[g] = true
+			if !isNewHelper(g) {
+				owners = append(owners, FuncName(g))
+				return
 			}
-			return true
-		})
-		bad := ""
-		n := 0
-		for _, r := range returnsOf(f) {
-			if derivesFrom(r.Results[0], x, 0) {
-				n++
-				if reached[r] && !provablyNonNilErr(r) {
-					bad = "the success return is reachable without Validate() having returned nil"
-				}
+			for _, ci := range c.P.callersOf(g) {
+				up(ci.Parent(), d+1)
 			}
 		}
-		if n == 0 {
-			bad = "the validated value is not the one returned"
-		}
-		// the validated value must be the extraction result
-		if ex, ok := x.(*ssa.Extract); !ok || !strings.Contains(calleeNameOfValue(ex.Tuple), "extractGeometry") {
-			bad = "Validate() is not called on the geometry extracted from the overlay"
-		}
-		if bad == "" {
-			c.OK(vc.Pos(), fn, "validate overlay result", "extracted geometry is validated on every success path and is the value returned")
-		} else {
-			c.Bad(vc.Pos(), fn, "validate overlay result", bad)
-		}
+		up(g, 0)
+		return owners
 	}
 	// who may call
 	for callee, allowed := range map[string][]string{
@@ -247,10 +319,17 @@ func runC01Validate(c *Ctx) {
 		}
 		for _, call := range c.P.callersOf(cf) {
 			caller := FuncName(rootFunc(call.Parent()))
-			ok := false
-			for _, a := range allowed {
-				if a == caller {
-					ok = true
+			owners := ownersOf(call.Parent())
+			ok := len(owners) > 0
+			for _, o := range owners {
+				isAllowed := false
+				for _, a := range allowed {
+					if a == o {
+						isAllowed = true
+					}
+				}
+				if !isAllowed {
+					ok = false
 				}
 			}
 			c.Check(ok, call.Pos(), caller, "call "+callee, "reviewed caller", "overlay internals called from an unreviewed function (its result would bypass validation / canonicalisation)")
